@@ -136,6 +136,11 @@ func c07Filter(rules []c07Rule) *server.ExtAuthZFilter {
 var c07Headers map[string]string
 
 func c07Observe(f *server.ExtAuthZFilter, target string) (triggered bool, err error) {
+	defer func() {
+		if x := recover(); x != nil {
+			err = fmt.Errorf("the check panicked instead of deciding: %v", x)
+		}
+	}()
 	resp, err := f.Check(context.Background(), sim.Req{Scheme: "https", Host: "app.example", Path: target, Headers: c07Headers}.Envoy())
 	if err != nil {
 		return false, err
